@@ -17,6 +17,15 @@ extern "C" void harness() {
   c.addNet({0, 2, 1}, {0, 3, 1}, {5, 2, 0}, 2.0f);
   ColoquinteParameters p(1);
   p.global.maxNbSteps = MAXSTEPS; p.global.nbInitialSteps = 0;
+#ifdef PSETS
+  int pset = __verif_choice(PSETS);
+  if (pset >= 1) p.global.roughLegalization.binSize = 2.0;     // 5 x 2 bins instead of 2 x 1
+  if (pset == 1) { p.global.roughLegalization.lineReoptSize = 3; p.global.roughLegalization.lineReoptOverlap = 2; p.global.roughLegalization.diagReoptSize = 2; p.global.roughLegalization.diagReoptOverlap = 1; }
+  if (pset == 2) { p.global.roughLegalization.squareReoptSize = 3; p.global.roughLegalization.squareReoptOverlap = 2; p.global.roughLegalization.unidimensionalTransport = false; }
+  bool rejected = false;
+  try { p.check(); } catch (const std::runtime_error&) { rejected = true; }
+  if (rejected) return;
+#endif
   Ctx ctx; ctx.c = &c; ctx.calls = 0; ctx.lb = 0; ctx.ub = 0;
   Ctx* cp = &ctx;
   PlacementCallback cb = [cp](PlacementStep s) { cp->calls++; if (s == PlacementStep::LowerBound) cp->lb++; if (s == PlacementStep::UpperBound) cp->ub++; };
